@@ -1490,6 +1490,13 @@ pub fn probe_stability() {
     for c in [1e3, 1e6, 1e8, 1e10] {
         mats.push((format!("sunrise c={c:e}"), 2, vec![c + 1.0, c, c, c + 1.25]));
     }
+    for (name, n, d) in structured_families(Tier::Thorough) {
+        if n >= 5 && !name.contains("x2^") {
+            mats.push((name.clone(), n, d.clone()));
+            let p: Vec<usize> = (0..n).rev().collect();
+            mats.push((format!("{name} reversed"), n, permuted(n, &d, &p)));
+        }
+    }
     for (name, n, d) in mats {
         let m = QMat::from_f64(n, &d).unwrap();
         if let DecompObs::Ok(dec) = call_decompose(n, &d, None) {
@@ -1518,7 +1525,9 @@ pub fn probe_stability() {
                 verdicts.push(format!("{t:e}:{}", match call_decompose(n, &d, Some(t)) { DecompObs::Ok(_) => "Ok", DecompObs::Unstable => "Unst", _ => "?" }));
             }
             let cond = m.cond1().map(|c| q_to_f64(&c)).unwrap_or(f64::NAN);
-            eprintln!("{name}: cond {cond:e} exact dist {dist:e} rigorous bound {b:e}  {}", verdicts.join(" "));
+            if dist > 1.5 * b || name.starts_with("hilbert") {
+                eprintln!("{name}: cond {cond:e} exact dist {dist:e} rigorous bound {b:e} ratio {:.2}  {}", dist / b, verdicts.join(" "));
+            }
         }
     }
 }
